@@ -87,16 +87,27 @@ def option_string(opts, workdir, api=None):
 _trace_path = None
 
 
+def trace_dir():
+    """Directory of the hook trace files of this check run.  Created (and removed at exit) by the process that first asks for
+    it - core.run_check does so before any worker pool is forked; pool workers, which never run atexit handlers, inherit it
+    through the environment."""
+    d = os.environ.get('GAPICVERIF_TRACE_DIR')
+    if not d or not os.path.isdir(d):
+        d = tempfile.mkdtemp(prefix='gapicverif-traces-')
+        os.environ['GAPICVERIF_TRACE_DIR'] = d
+        import atexit, shutil
+        atexit.register(lambda p=d, pid=os.getpid(): os.getpid() == pid and shutil.rmtree(p, ignore_errors=True))
+    return d
+
+
 def enable_trace():
     """Turn the /repo hooks on for THIS process.  Events are read back with read_trace()."""
     global _trace_path
     import sys as _sys
     if _trace_path is None:
-        fd, _trace_path = tempfile.mkstemp(prefix='gapicverif-trace-', suffix='.ndjson')
+        fd, _trace_path = tempfile.mkstemp(prefix='gapicverif-trace-', suffix='.ndjson', dir=trace_dir())
         os.close(fd)
         os.environ[GUARD] = _trace_path
-        import atexit
-        atexit.register(lambda p=_trace_path, pid=os.getpid(): os.getpid() == pid and os.path.exists(p) and os.remove(p))
     # the call sites test `verif_trace.ENABLED` dynamically, so this also works when gapic is already imported
     from gapic.utils import verif_trace
     verif_trace.ENABLED = True
